@@ -104,7 +104,10 @@ pub fn check_with(b: &B, cfg: &Cfg, w: usize, depth: u32, px: &Prefixes) -> Opti
     };
     let inner_render = |h: &str, iw: usize| -> Option<Vec<String>> { lines(&run(h.as_bytes(), cfg, iw)) };
     let prefixed = |first: &str, rest: &str, ls: &[String]| -> Vec<String> { ls.iter().enumerate().map(|(i, l)| format!("{}{}", if i == 0 { first } else { rest }, l)).collect() };
-    let trim = |v: Vec<String>| -> Vec<String> { v.into_iter().map(|l| l.trim_end().to_string()).collect() };
+    // exact comparison (a blank line of the content keeps the blank indentation); with pad_block_width the content's own
+    // lines are padded to their narrower width, so only then trailing blanks are ignored
+    let pad = cfg.pad;
+    let trim = move |v: Vec<String>| -> Vec<String> { if pad { v.into_iter().map(|l| l.trim_end().to_string()).collect() } else { v } };
     match b {
         B::P(_) => None,
         B::Quote(c) => {
